@@ -3,9 +3,12 @@ package main
 import (
 	"fmt"
 	"os"
+	"runtime/pprof"
 	"strconv"
 	"strings"
 )
+
+var exitFn = os.Exit
 
 func usage() {
 	fmt.Fprintln(os.Stderr, "usage: gosmt check <ID> [quick|thorough] [-v] | gosmt run <pkgkey> <Func> <a,b,c> [-desc] | gosmt selftest | gosmt list")
@@ -13,7 +16,7 @@ func usage() {
 }
 
 func defaultOpts(tier string) RunOpts {
-	o := RunOpts{Tier: tier, TimeoutMs: 20000, MaxPaths: 200000, MaxSteps: 4000000, MaxVisits: 700, Solver: SolverZ3}
+	o := RunOpts{Tier: tier, TimeoutMs: 20000, MaxPaths: 200000, MaxSteps: 4000000, MaxVisits: 700, Solver: solverFromEnv()}
 	if tier == "thorough" {
 		o.TimeoutMs = 120000
 	}
@@ -35,6 +38,12 @@ func main() {
 	}
 	if d := os.Getenv("VERIF_DIR"); d != "" {
 		verifDir = d
+	}
+	if pf := os.Getenv("GOSMT_PROF"); pf != "" {
+		f, _ := os.Create(pf)
+		pprof.StartCPUProfile(f)
+		defer pprof.StopCPUProfile()
+		exitFn = func(c int) { pprof.StopCPUProfile(); os.Exit(c) }
 	}
 	switch os.Args[1] {
 	case "list":
@@ -69,7 +78,7 @@ func main() {
 				opts.NoReplay = true
 			}
 		}
-		os.Exit(RunCheck(spec, opts))
+		exitFn(RunCheck(spec, opts))
 	case "run":
 		if len(os.Args) < 5 {
 			usage()
@@ -93,7 +102,7 @@ func main() {
 		}, Bounds: func(string) map[string]string { return nil }}
 		opts := defaultOpts("quick")
 		opts.Verbose = true
-		os.Exit(RunCheck(spec, opts))
+		exitFn(RunCheck(spec, opts))
 	case "selftest":
 		os.Exit(selftest())
 	default:
@@ -109,4 +118,16 @@ func selftest() int {
 	}
 	opts := defaultOpts("quick")
 	return RunCheck(spec, opts)
+}
+
+func solverFromEnv() SolverKind {
+	switch os.Getenv("GOSMT_SOLVER") {
+	case "z3":
+		return SolverZ3
+	case "cvc5":
+		return SolverCVC5
+	case "z3new":
+		return SolverZ3New
+	}
+	return SolverZ3New
 }
